@@ -3,6 +3,7 @@ import Parmcb.Model.Fvs
 import Parmcb.Model.DePina
 import Parmcb.Model.Signed
 import Parmcb.Model.Spanner
+import Parmcb.Model.Lex
 import Parmcb.Driver.Proto
 /-! correspondence handlers for the graph algorithms (C16, C13, C01/C02 …) -/
 namespace Parmcb.Driver
@@ -230,5 +231,64 @@ def handleApprox (c : Case) : String := Id.run do
       if total != ret then return s!"viol {c.id} ret returned={ret} emitted-weight={total}"
       return s!"ok {c.id} {g.n} {g.m} {k} {fi.dim} {D.length} {total} 0 0"
     | _, _, _, _, _, _, _, _ => return s!"diff {c.id} parse-approx-lines"
+
+def showOptNats (l : List (Option Nat)) : String :=
+  " ".intercalate (l.map fun | some x => toString x | none => "-")
+def showOptInts (l : List (Option Int)) : String :=
+  " ".intercalate (l.map fun | some x => toString x | none => "-")
+
+/-- C12: the shortest-path tree of every source, compared field by field -/
+def handleTrees (c : Case) : String := Id.run do
+  match parseGraph c.body with
+  | none => return s!"diff {c.id} parse-graph"
+  | some (g, rest) =>
+    let mut cur := rest
+    let mut cnt := 0
+    while true do
+      match cur with
+      | ["tree", s] :: ("dist" :: ds) :: ("pred" :: ps) :: ("first" :: fs) :: r =>
+        let s := s.toNat!
+        let t := buildTree g s
+        if showOptInts t.dist != " ".intercalate ds then
+          return s!"diff {c.id} tree {s} dist model=[{showOptInts t.dist}] impl=[{" ".intercalate ds}]"
+        if showOptNats ((List.range g.n).map fun v => t.pred.getD v none) != " ".intercalate ps then
+          return s!"diff {c.id} tree {s} pred model=[{showOptNats t.pred}] impl=[{" ".intercalate ps}]"
+        if showNats t.first != " ".intercalate fs then
+          return s!"diff {c.id} tree {s} first model=[{showNats t.first}] impl=[{" ".intercalate fs}]"
+        cur := r; cnt := cnt + 1
+      | _ => break
+    if cnt != g.n then return s!"diff {c.id} tree-count {cnt}"
+    return s!"ok {c.id} {g.n} {g.m} {cnt}"
+
+def showCands (l : List Cand) : List String := l.map fun c => s!"{c.tree} {c.edge} {c.weight}"
+
+/-- C14: Horton / FVS collections compared with the model (same order), every candidate unfolded -/
+def handleCands (c : Case) : String := Id.run do
+  match parseGraph c.body with
+  | none => return s!"diff {c.id} parse-graph"
+  | some (g, rest) =>
+    let which := c.args.getD 2 ""
+    let impl := (rest.filter (fun l => l.head? == some "cand")).map fun l => " ".intercalate l.tail
+    let some tsrc := findNats "tsrc" rest | return s!"diff {c.id} parse-tsrc"
+    let (trees, cands) :=
+      if which == "horton" then hortonCands g
+      else if which == "fvs" then fvsCands g ((findNats "fvs" rest).getD [])
+      else ([], [])
+    if which == "horton" || which == "fvs" then
+      if trees.map (·.source) != tsrc then return s!"diff {c.id} tree-sources"
+      if showCands cands != impl then
+        return s!"diff {c.id} candidates model={showCands cands} impl={impl}"
+      -- soundness of every candidate: unfolds to an element of the cycle space of the recorded weight
+      for cd in cands do
+        match trees[cd.tree]? with
+        | none => return s!"diff {c.id} tree-id"
+        | some t =>
+          match unfoldCand g t cd with
+          | none => return s!"viol {c.id} candidate-paths-share-an-edge tree={cd.tree} edge={cd.edge}"
+          | some Z =>
+            if !(evenSetB g Z) then return s!"viol {c.id} candidate-not-in-cycle-space tree={cd.tree} edge={cd.edge}"
+            if wt g Z != cd.weight then return s!"viol {c.id} candidate-weight recorded={cd.weight} true={wt g Z}"
+      return s!"ok {c.id} {g.n} {g.m} {cands.length}"
+    return s!"ok {c.id} {g.n} {g.m} {impl.length}"
 
 end Parmcb.Driver
